@@ -364,3 +364,34 @@ func E1Renderers(c *core.Ctx, r *core.Report) {
 	}
 	r.Floor("E1.render-roots", 15)
 }
+
+// E1ContextDraws: drawing through a Context does not rewrite the dash array shared with pushed states.
+func E1ContextDraws(c *core.Ctx, r *core.Report) {
+	r.Rule("E1.ctx-dash", "(*Path).checkDash and dashCanonical, through which Context.DrawPath passes Style.Dashes (an array shared with every state saved by Push), write no memory reachable from that array")
+	a := newEffects(c, r)
+	roots := []*ssa.Function{c.SSAFunc("", "Path.checkDash"), c.SSAFunc("", "dashCanonical")}
+	a.solve(roots)
+	a.reportEffects(r, "E1.ctx-dash", roots[0], nil, "argument", "d")
+	a.reportEffects(r, "E1.ctx-dash", roots[1], nil, "argument", "d")
+	// DrawPath hands the dash array only to checkDash and to the renderer
+	p := c.MustPkg("")
+	fd := core.MustFuncDecl(p, "Context.DrawPath")
+	okUse := true
+	ast.Inspect(fd.Body, func(n ast.Node) bool {
+		if call, ok := n.(*ast.CallExpr); ok {
+			for _, arg := range call.Args {
+				if id, ok := core.Unparen(arg).(*ast.Ident); ok && id.Name == "dashes" {
+					if f := core.CalleeOf(p.TypesInfo, call); f == nil || f.Name() != "checkDash" {
+						okUse = false
+					}
+				}
+			}
+		}
+		return true
+	})
+	if okUse {
+		r.OK("E1.ctx-dash", "canvas.Context.DrawPath|dash array uses", c.Pos(fd.Pos()), "passed to checkDash only")
+	} else {
+		r.Fail("E1.ctx-dash", "canvas.Context.DrawPath|dash array uses", c.Pos(fd.Pos()), "the shared dash array is handed to a function other than checkDash")
+	}
+}
